@@ -9,6 +9,7 @@ flight; gc.  The model propagates along the directed link graph.
 """
 import gc
 import sys
+import weakref
 
 from ..core import Violation, HarnessError, InjectedFault, stream, sut, exc_name
 from ..core import deep
@@ -18,7 +19,7 @@ from . import c05
 ID = "C20"
 UNKNOWN = "<unknown>"
 
-PAIRS = {"int": ["n", "m"], "str": ["s", "t"], "list": ["l", "k"], "chk": ["c", "c2"]}
+PAIRS = {"int": ["n", "m"], "str": ["s", "t"], "list": ["l", "k", "ld"], "chk": ["c", "c2"]}
 LIST_KINDS = ["append", "append", "insert", "extend", "iadd", "delitem_i", "delitem_s",
               "setitem_i", "setitem_s", "setitem_s_match", "pop", "pop_last", "remove", "clear",
               "reverse", "sort", "imul"]
@@ -171,8 +172,14 @@ class Prop:
                 finally:
                     inflight.pop()
             return h
+        def mk_self(o):
+            def h(new):
+                return o         # a handler that closes over its own object
+            return h
         for i, o in enumerate(objs):
-            o.on_trait_change(mk(i), "n,m,s,t,l,k,l_items,k_items")
+            o.on_trait_change(mk(i), "n,m,s,t,l,k,ld,l_items,k_items,ld_items")
+            o.on_trait_change(mk_self(o), "m")
+        o = None          # (the loop variable must not keep the last object alive)
 
         uncertain = set()
 
@@ -190,8 +197,16 @@ class Prop:
                 # already passed through it depends on the (unspecified) notifier order
                 for t in GROUPS:
                     uncertain.update(self.reach(edges, (j, t)))
+            wr = weakref.ref(objs[j])
             objs[j] = None
             gc.collect()
+            if not inflight and wr() is not None:
+                # sync_trait refers to its partners weakly: with the last outside
+                # reference gone and a collection run, the object is dead (also when a
+                # handler of its own closes over it: a cycle through its instance traits)
+                raise Violation("C20.partner-kept-alive",
+                                "S%d was dropped (no reference left outside traits) and a "
+                                "collection ran, but the object is still alive" % j, None)
             for e in list(edges):
                 if e[0][0] == j or e[1][0] == j:
                     edges.discard(e)
